@@ -9,7 +9,7 @@ import itertools
 import os
 import time
 
-from mc import common
+from mc import common, wsgi
 from ref import match as R
 
 ID = 'C05'
@@ -33,7 +33,7 @@ P1_KINDS += [('bind', None, op, '') for op in ('', ':', '?', '*', '+')]
 P1_KINDS += [('bind', None, op, t) for op in (':', '?', '*', '+') for t in ('str', 'unicode', 'int', 'float')]
 
 P2_KINDS = [('lit', 'a')] + [('bind', None, op, t) for op in (':', '?', '*', '+') for t in ('str', 'int')]
-P2_SEGS = ['a', 'b-1', '1', '+ 2', '1.5', u'\xe9', '0', 'a\n', '1\n']
+P2_SEGS = ['a', 'b-1', '1', '+ 2', '1.5', u'\xe9', '0', 'a\n', '1\n', '..', '+5']
 
 INVALID_EXTRA = ['a', 'a/b', '', '//', '/a//b', '/a//', '//a', '/<x>/<x>', '/<x>/a/<x+int>', '/<x:foo>', '/<x?bar>',
                  '/<x!>', '/<x?:int>', '/<x**>', '/<x+?>', '/<x~int>', '/<x:int>//', '/a/<x^>', '/<x:INT>', '/<x:Int>',
@@ -398,7 +398,9 @@ def run_e2e(acc, clastic, shard, nshards, maxel, maxsegs):
                 acc.validated += 1
                 case = {'kind': 'e2e', 'pattern': ptext, 'mode': mode, 'path': path, 'placement': placement}
                 try:
-                    body = app(_environ(path), lambda s, h, e=None: status.append(s))
+                    # paths with a '+' also travel through the development server's own request parsing
+                    env = wsgi.dev_server_environ(path, 'GET') if ('+' in path and not path.startswith('//')) else _environ(path)
+                    body = app(env, lambda s, h, e=None: status.append(s))
                     try:
                         b''.join(body)
                     finally:
